@@ -53,10 +53,23 @@ def run_mutant(name, pid, patch_text, reverse, runs, tier='quick', seed=None, pi
             ('MISSED' if c.returncode == 0 else f'harness-exit-{c.returncode}')
         out = {'mutant': name, 'property': pid, 'result': res, 'wall_s': round(time.time() - t0, 1),
                'detail': [ln[:300] for ln in lines[:3]]}
+        if res == 'caught':
+            # a catch only counts if the reported history is quiet on the unchanged tree (a check that alarms on
+            # the clean tree -- e.g. through a bad pinned history -- "catches" every mutant)
+            rps = [ln.split('replay=')[1].strip() for ln in c.stdout.splitlines()
+                   if ln.startswith('VIOLATION') and 'replay=' in ln]
+            rps = [r_ for r_ in rps if os.path.exists(r_) and '-determinism-' not in r_]
+            clean_env = {k: v for k, v in os.environ.items() if k != 'VERIF_REPO'}
+            quiet = [r_ for r_ in rps if sh(os.path.join(HERE, 'check'), pid, '--replay', r_, cwd=HERE,
+                                            env=clean_env, timeout=1800).returncode == 0]
+            if rps and not quiet:
+                out['result'] = res = 'INVALID(alarms-on-clean-tree)'
+            elif rps:
+                out['validated_quiet_on_clean_tree'] = len(quiet)
         if pin and res == 'caught':
             # keep the minimised history as a pinned plan: executed by every later batch of this check
             rp = [ln.split('replay=')[1].strip() for ln in c.stdout.splitlines() if ln.startswith('VIOLATION') and 'replay=' in ln]
-            rp = [r_ for r_ in rp if os.path.exists(r_) and '-determinism-' not in r_]
+            rp = [r_ for r_ in rp if os.path.exists(r_) and '-determinism-' not in r_ and r_ in quiet]
             if rp:
                 doc = json.load(open(rp[0]))
                 tag = name.replace('/', '-').replace('.diff', '')
